@@ -211,6 +211,54 @@ pub fn c03<T: Full>(g: &mut Gen, b: &Budget, out: &mut Sink) {
     }
 }
 
+/// the bulk (`u8`) write path against the generic element loop, on the same byte sequence and
+/// for every length up to 300 plus the sizes at which writers change strategy
+pub fn c03_fastpath(g: &mut Gen, thorough: bool, out: &mut Sink) {
+    use std::collections::{LinkedList, VecDeque};
+    let mut lens: Vec<usize> = (0..=300).collect();
+    lens.extend([511usize, 512, 513, 1023, 1024, 1025, 4091, 4092, 4093, 4095, 4096, 4097, 8191, 8192, 8193,
+                 65531, 65532, 65533, 65535, 65536, 65537]);
+    if thorough {
+        lens.extend(301..=1100);
+        lens.extend([(1 << 20) - 4, (1 << 20) - 3, 1 << 20, (1 << 20) + 1]);
+    }
+    for n in lens {
+        let bytes: Vec<u8> = g.bytes(n);
+        // the specification of the generic path: the count, then every element's own encoding
+        let mut generic: Vec<u8> = (n as u32).to_le_bytes().to_vec();
+        for b in &bytes {
+            generic.extend(borsh::to_vec(b).unwrap());
+        }
+        let want = format!("ok {}", hex(&generic));
+        let case = format!("enc (seq vec u8) {}", val_of(&bytes));
+        let (e, _) = enc_obs(&bytes);
+        out.case(&case, &e);
+        out.oracle("C03", e == want, &case, &format!("Vec<u8> of {} bytes: bulk path differs from the element loop", n));
+        let alts: Vec<(&str, String)> = vec![
+            ("[u8]", enc_obs(&&bytes[..]).0),
+            ("Box<[u8]>", enc_obs(&bytes.clone().into_boxed_slice()).0),
+            ("Cow<[u8]>", enc_obs(&std::borrow::Cow::<[u8]>::Borrowed(&bytes[..])).0),
+            ("Rc<[u8]>", enc_obs(&std::rc::Rc::<[u8]>::from(&bytes[..])).0),
+            ("VecDeque<u8>", enc_obs(&bytes.iter().copied().collect::<VecDeque<u8>>()).0),
+            ("LinkedList<u8>", enc_obs(&bytes.iter().copied().collect::<LinkedList<u8>>()).0),
+            ("Vec<i8>", enc_obs(&bytes.iter().map(|b| *b as i8).collect::<Vec<i8>>()).0),
+        ];
+        for (name, a) in alts {
+            out.oracle("C03", a == want, &case, &format!("{} of {} bytes encodes differently from the element loop", name, n));
+        }
+        // text: same rule for str / String / Box<str>
+        let text: String = bytes.iter().map(|b| (b'a' + b % 26) as char).collect();
+        let mut tgen: Vec<u8> = (n as u32).to_le_bytes().to_vec();
+        tgen.extend(text.as_bytes());
+        let twant = format!("ok {}", hex(&tgen));
+        for (name, a) in [("String", enc_obs(&text).0), ("str", enc_obs(&text.as_str()).0),
+                          ("Box<str>", enc_obs(&text.clone().into_boxed_str()).0)] {
+            out.oracle("C03", a == twant, &format!("enc (str string) {}", hex(text.as_bytes())),
+                       &format!("{} of {} bytes: prefix + bytes expected", name, n));
+        }
+    }
+}
+
 // ------------------------------------------------------------------ C04 / C16: malformed input
 
 /// mutations of a valid encoding
